@@ -1,12 +1,13 @@
 #!/bin/sh
-# tools/try_seed2.sh <Cxx> ... : run the own-property check against /tmp/seed2/<Cxx>/out/{c,d,h}
+# tools/try_seed2.sh <Cxx> ... : run the own-property check against /tmp/seed2/<Cxx>/out/{c,d}
+n=0
 for P in "$@"; do
-  for v in c d h; do
+  for v in c d; do
     [ -f /tmp/seed2/$P/out/$v/patch.diff ] || continue
-    ( extra=""; [ $v = h ] && extra="C19"
-      /verif/tools/try_patch.sh /tmp/seed2/$P/out/$v/patch.diff $P $extra > /tmp/seed2/$P/out/$v/try.log 2>&1
-      echo "$P/$v rc=$? :: $(grep -E '^==' /tmp/seed2/$P/out/$v/try.log | tr '\n' ' ')" ) &
-    sleep 1
+    ( timeout 900 /verif/tools/try_patch.sh /tmp/seed2/$P/out/$v/patch.diff $P > /tmp/seed2/$P/out/$v/try.log 2>&1
+      echo "$P/$v rc=$? :: $(grep -E '^==' /tmp/seed2/$P/out/$v/try.log | tr '\n' ' ') $(grep -c '^VIOLATION' /tmp/seed2/$P/out/$v/try.log) violations, $(grep '^VIOLATION' /tmp/seed2/$P/out/$v/try.log | grep -vc no-failing-input-found) replayed" ) &
+    n=$((n+1)); sleep 1
+    [ $((n % 12)) -eq 0 ] && wait
   done
 done
 wait
